@@ -49,6 +49,8 @@ def generic(obj, depth=0):
         return type(obj).__name__ + '[' + ','.join(generic(x, depth + 1) for x in obj) + ']'
     if isinstance(obj, (list, tuple)):
         return '[' + ','.join(generic(x, depth + 1) for x in obj) + ']'
+    if type(obj).__module__.startswith('asn1crypto') and hasattr(obj, 'dump'):
+        return 'der' + hx(obj.dump())
     if attr.has(type(obj)):
         fields = [(f.name, getattr(obj, f.name)) for f in attr.fields(type(obj))]
         extra = sorted((k, v) for k, v in getattr(obj, '__dict__', {}).items()
